@@ -125,6 +125,8 @@ def _codec(fv):
         else:
             v = norm(sym._rename(e.value, ren)) if e.value is not None else "None"
             out.add((sym._rename_text(fmt_formula(sym._sort_formula(e.cond)) if e.cond not in (True, False) else str(e.cond), ren), e.kind + " " + v))
+    import re as _re
+    out = {(_re.sub(r",? ?__n=\d+", "", c), _re.sub(r",? ?__n=\d+", "", v)) for c, v in out}      # one read per codec: the evaluation tags carry no information here
     return out, names
 
 
